@@ -189,9 +189,58 @@ func solveAll(vcs []*VC, cfg solveCfg) {
 	os.MkdirAll(cfg.outDir, 0o755)
 	var mu sync.Mutex
 	cache := map[[32]byte]*cacheEntry{}
+	covered := map[string]bool{} // cover obligations already witnessed by one path
+	failedOb := map[string]bool{} // obligations that already have a failing path: the rest is skipped
 	sem := make(chan struct{}, cfg.jobs)
 	var wg sync.WaitGroup
+	// cover (vacuity) obligations: "is this path / antecedent provably infeasible?" — one group per
+	// obligation, paths tried in order with a short timeout until one is NOT refuted (sat or unknown).
+	groups := map[string][]int{}
+	var gorder []string
 	for i, vc := range vcs {
+		if vc.Kind == "cover" {
+			if _, ok := groups[vc.Ob]; !ok {
+				gorder = append(gorder, vc.Ob)
+			}
+			groups[vc.Ob] = append(groups[vc.Ob], i)
+		}
+	}
+	for _, ob := range gorder {
+		wg.Add(1)
+		sem <- struct{}{}
+		go func(idx []int) {
+			defer wg.Done()
+			defer func() { <-sem }()
+			found := false
+			for _, i := range idx {
+				vc := vcs[i]
+				if found {
+					vc.Verdict, vc.Solver = "skipped", "covered-by-another-path"
+					continue
+				}
+				if vc.Goal.S == "true" {
+					vc.Verdict, vc.Solver = "unsat", "trivial"
+					continue
+				}
+				file := filepath.Join(cfg.outDir, fmt.Sprintf("cv%05d.smt2", i))
+				os.WriteFile(file, []byte(vc.script(false)), 0o644)
+				r := runSolver(context.Background(), solvers[0], file, 2)
+				vc.Verdict, vc.Solver, vc.Raw, vc.Time = r.verdict, r.solver, r.raw, r.secs
+				if r.verdict != "unsat" {
+					// not refuted: feasible (sat) or at least not provably vacuous (unknown/timeout)
+					if r.verdict != "error" {
+						vc.Verdict = "sat"
+					}
+					found = true
+				}
+				os.Remove(file)
+			}
+		}(groups[ob])
+	}
+	for i, vc := range vcs {
+		if vc.Kind == "cover" {
+			continue
+		}
 		wg.Add(1)
 		sem <- struct{}{}
 		go func(i int, vc *VC) {
@@ -199,6 +248,27 @@ func solveAll(vcs []*VC, cfg solveCfg) {
 			defer func() { <-sem }()
 			if vc.Kind != "cover" && vc.Goal.S == "true" {
 				vc.Verdict, vc.Solver = "unsat", "trivial"
+				return
+			}
+			if vc.Kind == "cover" {
+				mu.Lock()
+				done := covered[vc.Ob]
+				mu.Unlock()
+				if done {
+					vc.Verdict, vc.Solver = "skipped", "covered-by-another-path"
+					return
+				}
+				if vc.Goal.S == "true" {
+					// antecedent is syntactically false on this path
+					vc.Verdict, vc.Solver = "unsat", "trivial"
+					return
+				}
+			}
+			mu.Lock()
+			skip := failedOb[vc.Ob]
+			mu.Unlock()
+			if skip {
+				vc.Verdict, vc.Solver = "skipped", "obligation-already-failed"
 				return
 			}
 			text := vc.script(true)
@@ -216,10 +286,15 @@ func solveAll(vcs []*VC, cfg solveCfg) {
 			vc.File = file
 			r := solveOne(file, cfg, vc.Kind == "cover")
 			vc.Verdict, vc.Solver, vc.Raw, vc.Time, vc.Confirmed = r.verdict, r.solver, r.raw, r.secs, r.confirmed
+			if vc.Kind != "cover" && r.verdict != "unsat" {
+				mu.Lock()
+				failedOb[vc.Ob] = true
+				mu.Unlock()
+			}
 			mu.Lock()
 			cache[h] = &cacheEntry{r.verdict, r.solver, r.raw, r.secs, r.confirmed}
 			mu.Unlock()
-			if (vc.Kind != "cover" && r.verdict == "unsat") || (vc.Kind == "cover" && r.verdict == "sat") {
+			if os.Getenv("SSOVC_KEEP") == "" && ((vc.Kind != "cover" && r.verdict == "unsat") || (vc.Kind == "cover" && r.verdict == "sat")) {
 				os.Remove(file)
 				vc.File = ""
 			}
